@@ -525,6 +525,63 @@ Section Conv.
                     Forall2 (fun f kv => inst_ok (f_ty f) (snd kv)) (c_fields k) fs ->
                     inst_ok (TData c) (VData c fs).
 
+  (* ---------- decode -> encode: documents that conform to an annotation ---------- *)
+  (* leaf texts are canonical: base64 as the encoder writes it, ISO / UUID texts as Python re-prints them *)
+  Inductive conforms : ty -> json -> Prop :=
+  | C_str s : conforms TStr (JStr s)
+  | C_int z : conforms TInt (JInt z)
+  | C_float z : conforms TFloat (JFloat z)
+  | C_bool b : conforms TBool (JBool b)
+  | C_bytes b : conforms TBytes (JStr (b64enc b))
+  | C_dt s : dt_parse s = Some s -> replace_Z s = s -> conforms TDatetime (JStr s)
+  | C_date s : date_parse s = Some s -> conforms TDate (JStr s)
+  | C_uuid s : uuid_parse s = Some s -> conforms TUuid (JStr s)
+  | C_time s : time_parse s = Some s -> conforms TTime (JStr s)
+  | C_enum vals s : mem_str s vals = true -> conforms (TEnum vals) (JStr s)
+  | C_any j : conforms TAny j
+  | C_list X l : Forall (conforms X) l -> conforms (TList X) (JArr l)
+  | C_dict X kvs : Forall (fun kv => conforms X (snd kv)) kvs -> conforms (TDict X) (JObj kvs)
+  | C_none X : conforms (TOpt X) JNull
+  | C_some X j : j <> JNull -> conforms X j -> conforms (TOpt X) j
+  | C_data c k kvs :
+      lookup_cls c = Some k -> NoDup (map fst kvs) ->
+      (* every key is the wire key of a field and carries a conforming value; no unknown keys *)
+      (forall key v, In (key, v) kvs -> exists f, In f (c_fields k) /\ wire k f = key /\ conforms (f_ty f) v) ->
+      (* required fields are present *)
+      (forall f, In f (c_fields k) -> f_default f = None -> In (wire k f) (map fst kvs)) ->
+      conforms (TData c) (JObj kvs).
+
+  Definition empty_json (j : json) : Prop := j = JNull \/ j = JArr [] \/ j = JObj [].
+  Definition leaf_ty (T : ty) : bool :=
+    match T with TList _ | TDict _ | TOpt _ | TData _ | TWrap _ | TFwd _ => false | _ => true end.
+
+  (* "returns that value": the re-encoded document equals the input, except that (1) the keys of an
+     object follow the class' field order and (2) a key that was absent reappears as null or as an empty
+     container (the encoded default of the optional field) *)
+  Inductive rt_rel : ty -> json -> json -> Prop :=
+  | R_leaf T j : leaf_ty T = true -> rt_rel T j j
+  | R_list X l l' : Forall2 (rt_rel X) l l' -> rt_rel (TList X) (JArr l) (JArr l')
+  | R_dict X kvs kvs' :
+      Forall2 (fun a b => fst a = fst b /\ rt_rel X (snd a) (snd b)) kvs kvs' ->
+      rt_rel (TDict X) (JObj kvs) (JObj kvs')
+  | R_null X : rt_rel (TOpt X) JNull JNull
+  | R_some X j j' : rt_rel X j j' -> rt_rel (TOpt X) j j'
+  | R_data c k kvs kvs' :
+      lookup_cls c = Some k ->
+      map fst kvs' = map (wire k) (c_fields k) ->
+      (forall f j', In f (c_fields k) -> alookup (wire k f) kvs' = Some j' ->
+         (exists jv, alookup (wire k f) kvs = Some jv /\ rt_rel (f_ty f) jv j') \/
+         (alookup (wire k f) kvs = None /\ empty_json j')) ->
+      rt_rel (TData c) (JObj kvs) (JObj kvs').
+
+  (* defaults of optional fields as the generator (and sane hand-written models) write them *)
+  Definition default_shape (T : ty) (d : value) : Prop :=
+    (d = VNone /\ exists X, T = TOpt X) \/
+    (d = VList [] /\ exists X, T = TList X \/ T = TOpt (TList X)) \/
+    (d = VDict [] /\ exists X, T = TDict X \/ T = TOpt (TDict X)).
+  Definition defaults_ok : Prop :=
+    forall c k f d, lookup_cls c = Some k -> In f (c_fields k) -> f_default f = Some d -> default_shape (f_ty f) d.
+
   (* every class of the table has its hooks registered (what the two entry points establish for the
      classes reachable from their argument) *)
   Definition all_hooked (reg : list N) : Prop := forall c k, lookup_cls c = Some k -> mem_N c reg = true.
@@ -538,9 +595,15 @@ Section Conv.
   Definition expand (S : list N) : list N := nodup N.eq_dec (S ++ flat_map cls_refs S).
   Fixpoint iter_expand (n : nat) (S : list N) : list N :=
     match n with O => S | S n' => iter_expand n' (expand S) end.
+  (* every class id that occurs anywhere: the ids of the table, the ids its fields mention, the ids of T *)
+  Definition universe (T : ty) : list N :=
+    nodup N.eq_dec (ty_classes T ++ flat_map (fun k => flat_map (fun f => ty_classes (f_ty f)) (c_fields k)) ct).
   (* the set _register_*_hooks_recursively / _register_hooks_for_nested_types walk from T
-     (they carry a visited set; the registered set is the reachability closure) *)
-  Definition reach (T : ty) : list N := iter_expand (length ct) (nodup N.eq_dec (ty_classes T)).
+     (they carry a visited set; the registered set is the reachability closure: proved in
+     Proofs/Converter.v, reach_closed / reach_least).  The walk resolves the hints with
+     get_type_hints(cls, include_extras=True) and hands them to cattrs, so quoted names inside
+     generics resolve (F03c) and Annotated[...] metadata of union fields survives (C14's subject). *)
+  Definition reach (T : ty) : list N := iter_expand (length (universe T)) (nodup N.eq_dec (ty_classes T)).
 
   Record state := { sreg_of : list N; ureg_of : list N }.
   Definition st0 : state := {| sreg_of := []; ureg_of := [] |}.
